@@ -4,6 +4,7 @@
 import Plonk.Model.Bls
 import Plonk.Model.Transcript
 import Plonk.Model.Kzg
+import Plonk.Model.Verifier
 import Plonk.Driver.Parse
 import Plonk.Driver.Kernels
 import Plonk.Driver.Prog
@@ -170,5 +171,71 @@ def kzgAnswer (toks : List String) : String :=
     | some ps, some z, some v => showList (aggregateWitness (ps.map Poly.ofCoeffs) z v)
     | _, _, _ => "bad-request"
   | _ => "bad-request"
+
+end Plonk.Driver
+
+namespace Plonk.Driver
+open Plonk
+
+def verName? (s : String) : Option PVersion :=
+  match s with | "1" => some .v1 | "2" => some .v2 | "3" => some .v3 | _ => none
+
+/-- `verify <ver> <x> <verifier-hex> <pis> <proof-hex>`; `cache` holds the last decoded verifier -/
+def verifyAnswer (cache : Option (String × Except VDecErr VerifierM)) (toks : List String) :
+    String × Option (String × Except VDecErr VerifierM) :=
+  match toks with
+  | ["verify", ver, x, vhex, pis, phex] =>
+    match verName? ver, parseHex? x, parseList? pis, parseBytes? phex with
+    | some ver, some x, some pis, some pb =>
+      let (dv, cache) : Except VDecErr VerifierM × Option (String × Except VDecErr VerifierM) :=
+        match cache with
+        | some (k, v) => if k == vhex then (v, cache) else
+            match parseBytes? vhex with
+            | some vb => let v := VerifierM.fromBytes vb; (v, some (vhex, v))
+            | none => (.error .invalid, cache)
+        | none =>
+            match parseBytes? vhex with
+            | some vb => let v := VerifierM.fromBytes vb; (v, some (vhex, v))
+            | none => (.error .invalid, cache)
+      match dv with
+      | .error .notEnoughBytes => ("err:verifier-NotEnoughBytes", cache)
+      | .error .invalid => ("err:verifier-invalid", cache)
+      | .ok v =>
+        match ProofM.fromBytes? pb with
+        | none => ("err:proof-decode", cache)
+        | some p =>
+          -- canonicity: an accepted byte string re-encodes to itself
+          let canon := if p.toBytes == pb.take 1008 then "" else " NONCANONICAL"
+          match v.verify x p pis ver with
+          | .ok =>
+            -- cross-check the grouped MSM against the textbook equation
+            let spec := match Domain.new? v.vk.n with
+              | some d =>
+                let roots := v.piIndexes.map fun i => fpow d.groupGenInv (i % 2 ^ 64)
+                let t := baseTranscript v.label v.vk v.constraints (ver == .v3)
+                let t := pis.foldl (fun t pi => t.appendScalar "pi" pi) t
+                let ch := verifierChallenges t p
+                match verifyTerms v.vk v.ok.g d roots pis p ch (ver == .v1), verifyRefPoint v.vk v.ok.g d roots pis p ch (ver == .v1) with
+                | some (right, _), some refp => if G1.msum right == refp then " spec=ok" else " spec=MISMATCH"
+                | _, _ => " spec=MISMATCH"
+              | none => " spec=MISMATCH"
+            ("ok" ++ canon ++ spec, cache)
+          | .piLen => ("err:pilen", cache)
+          | .reject => ("err:verify" ++ canon, cache)
+    | _, _, _, _ => ("bad-request", cache)
+  | ["vroundtrip", vhex] =>
+    match parseBytes? vhex with
+    | some vb => match VerifierM.fromBytes vb with
+      | .ok v => ("ok " ++ showBytes v.toBytes, cache)
+      | .error .notEnoughBytes => ("err:verifier-NotEnoughBytes", cache)
+      | .error .invalid => ("err:verifier-invalid", cache)
+    | none => ("bad-request", cache)
+  | ["proofdec", phex] =>
+    match parseBytes? phex with
+    | some pb => match ProofM.fromBytes? pb with
+      | some p => ("ok " ++ showBytes p.toBytes, cache)
+      | none => ("err", cache)
+    | none => ("bad-request", cache)
+  | _ => ("bad-request", cache)
 
 end Plonk.Driver
